@@ -720,6 +720,72 @@ fn check_instance(c: &InstanceCase, rec: &mut Rec) -> CaseResult {
     check_output(&out, &what, Origin::Instance, Some(s.num_glyphs), &s.codes, true, rec)
 }
 
+
+// ------------------------------------------------------------------------------ instances of generated variable fonts
+
+/// C12's generated gvar fonts (simple + composite glyphs with byte/word xy offsets and anchor
+/// arguments, HVAR/MVAR/cvar/avar variants) instanced at C12's user tuples; every Ok output goes
+/// through the same checks as the fixture `instance` section. The variable font itself and its
+/// first instance are also subset with two glyph lists.
+fn check_instance_generated(case: &crate::props::c12::Case, rec: &mut Rec) -> CaseResult {
+    let (font, users) = crate::props::c12::generated_font_and_users(case);
+    rec.artefact("source", &font);
+    let src = validate_container(&font);
+    let num_glyphs = src.tables.get(b"maxp").and_then(|m| be16(m, 4)).ok_or_else(|| fail("harness:c12-font", "generated variable font has no maxp".into()))?;
+    let mask: BTreeSet<&'static str> = validate_tables(&src.tables, Opts { exact_sizes: false, charstrings: false }).issues.iter().map(|i| i.code).collect();
+    rec.class_if(!mask.is_empty(), "instance-generated:source-raises-validator-codes");
+    let fd = ReadScope::new(&font).read::<FontData<'_>>().map_err(|e| fail("harness:c12-font", format!("{:?}", e)))?;
+    let p = fd.table_provider(0).map_err(|e| fail("harness:c12-font", format!("{:?}", e)))?;
+    let mut first_ok: Option<Vec<u8>> = None;
+    let mut oks = 0u64;
+    for (ui, user) in users.iter().enumerate() {
+        let tuple: Vec<Fixed> = user.iter().map(|v| Fixed::from_raw(*v)).collect();
+        let what = format!("instance(generated gvar font, {} glyphs, tuple {} = {:?})", num_glyphs, ui, user.iter().map(|v| *v as f64 / 65536.0).collect::<Vec<_>>());
+        match allsorts::variations::instance(&p, &tuple) {
+            Ok((out, _)) => {
+                oks += 1;
+                check_output(&out, &what, Origin::Instance, Some(num_glyphs), &mask, true, rec)?;
+                if first_ok.is_none() && ui > 0 {
+                    first_ok = Some(out);
+                }
+            }
+            Err(e) => {
+                rec.class("instance-generated:Err");
+                rec.sample(|| format!("{} -> Err {:?}", what, e));
+            }
+        }
+    }
+    rec.class(if oks == users.len() as u64 { "instance-generated:all-tuples-Ok" } else { "instance-generated:some-tuples-Err" });
+    // subsets of the variable font and of one instance
+    let all: Vec<u16> = (0..num_glyphs).collect();
+    let mut some: Vec<u16> = vec![0];
+    some.extend((1..num_glyphs).rev().step_by(2));
+    let empty = BTreeSet::new();
+    let mut subset_of = |bytes: &[u8], name: &str, rec: &mut Rec| -> CaseResult {
+        let fd = ReadScope::new(bytes).read::<FontData<'_>>().map_err(|e| fail("self-load", format!("{}: {:?}", name, e)))?;
+        let p = fd.table_provider(0).map_err(|e| fail("self-load", format!("{}: {:?}", name, e)))?;
+        for ids in [&all, &some] {
+            let what = format!("subset({}, {:?})", name, ids);
+            match allsorts::subset::subset(&p, ids) {
+                Ok(out) => {
+                    oks += 1;
+                    check_output(&out, &what, Origin::Subset, None, &empty, true, rec)?;
+                    rec.class("instance-generated:subset-Ok");
+                }
+                Err(_) => rec.class("instance-generated:subset-Err"),
+            }
+        }
+        Ok(())
+    };
+    subset_of(&font, "generated gvar font", rec)?;
+    if let Some(inst) = &first_ok {
+        subset_of(inst, "instance of generated gvar font", rec)?;
+    }
+    rec.evaluations(oks.saturating_sub(1));
+    rec.hash_bytes(&font);
+    Ok(())
+}
+
 // ------------------------------------------------------------------------------ WOFF2 tables
 
 fn check_woff2_tables(i: u64, rec: &mut Rec) -> CaseResult {
@@ -1361,7 +1427,7 @@ impl Property for C09 {
         "Writers exercised: subset::subset and subset::prince::subset (Unrestricted / MacRoman / Omit / supplied MacRoman array, with and without CID conversion) with generated glyph lists \
          (glyph 0 first, distinct ids, individual picks plus contiguous runs of up to 420 glyphs, sorted / reversed / shuffled) on every fixture font <= 470 kB (TrueType, CFF, CFF2, variable, WOFF and WOFF2 providers; the 2 MB CID-keyed fixture in 1 of 24 cases) \
          and on generated BasicFonts (empty, simple, composite glyphs, odd instruction and table lengths, numberOfHMetrics < numGlyphs, short/long loca, BMP and astral cmaps); subset::whole_font with generated tag lists (subsets, permutations, duplicates, with and without the required tables); \
-         variations::instance on the variable fixtures at generated user coordinates (min / default / max / inside / outside); the tables delivered by the WOFF2 provider for every WOFF2 fixture and for generated WOFF2 files (C11's font models through the independent fontgen::woff2 encoder: single fonts and collections, glyf transformed or null-transformed, hmtx transformed with every legal flag combination, short/long loca; plus large fonts whose rebuilt glyf is 100-200 kB and straddles 131 070 / 131 072 bytes while head declares short offsets, so that the decoder has to switch loca format). \
+         variations::instance on the variable fixtures at generated user coordinates (min / default / max / inside / outside) and on C12's generated gvar fonts (simple and composite glyphs with byte/word offsets and anchor arguments; HVAR/MVAR/cvar/avar variants) at C12's user tuples, those fonts and one instance each also subset with two glyph lists; the tables delivered by the WOFF2 provider for every WOFF2 fixture and for generated WOFF2 files (C11's font models through the independent fontgen::woff2 encoder: single fonts and collections, glyf transformed or null-transformed, hmtx transformed with every legal flag combination, short/long loca; plus large fonts whose rebuilt glyf is 100-200 kB and straddles 131 070 / 131 072 bytes while head declares short offsets, so that the decoder has to switch loca format). \
          Every Ok output is checked by the independent validator refmodel::sfnt_validate: header, search fields, sorted directory, 4-byte alignment, bounds, overlap, zero padding (including the last table), per-table checksums, whole-file sum / head.checkSumAdjustment; \
          and for subsets, instances and WOFF2 tables: maxp/hhea/hmtx sizes, head.indexToLocFormat/loca width and monotonicity, every glyph parses inside its loca slice, component ids < numGlyphs and acyclic, cmap structure (formats 0/4/6/12: lengths, search fields, segment order, last segment 0xFFFF, all glyph ids < numGlyphs), post 2.0/3.0 sizes, \
          CFF/CFF2 (INDEX and DICT syntax, CharStrings count = numGlyphs, charset/Encoding/FDSelect/FDArray/Private/Subrs resolve, every charstring walks to endchar with all subroutine references in range); instances carry no variation tables. \
@@ -1386,6 +1452,8 @@ impl Property for C09 {
         ctx.section("whole-font", n, whole_strategy(), |c, rec| check_whole(c, rec));
         let n = ctx.cases(24_000, 300_000);
         ctx.section("instance", n, instance_strategy(), |c, rec| check_instance(c, rec));
+        let n = ctx.cases(1_500, 60_000);
+        ctx.section("instance-generated", n, crate::props::c12::case_strategy(), |c, rec| check_instance_generated(c, rec));
         let files = fixtures::list("fonts/woff2", &["woff2"], 1 << 21).len() as u64;
         ctx.enumerate("woff2-tables", files, true, |i, rec| check_woff2_tables(i, rec));
         let n = ctx.cases(1_200, 40_000);
